@@ -1,0 +1,35 @@
+// +build verif
+
+package sleep
+
+import "unsafe"
+
+//go:linkname runtimeGopark runtime.gopark
+func runtimeGopark(unlockf func(uintptr, unsafe.Pointer) bool, lock unsafe.Pointer, reason uint8, traceReason uint8, traceskip int)
+
+//go:linkname runtimeGoready runtime.goready
+func runtimeGoready(g uintptr, traceskip int)
+
+// VerifPark and VerifReady, when non-nil, replace the runtime's park/ready
+// primitives so that a test harness can own the schedule.
+var (
+	VerifPark  func(commit func(g uintptr) bool)
+	VerifReady func(g uintptr)
+)
+
+func gopark(unlockf func(uintptr, *uintptr) bool, wg *uintptr, reason string, traceEv byte, traceskip int) {
+	if p := VerifPark; p != nil {
+		p(func(g uintptr) bool { return unlockf(g, wg) })
+		return
+	}
+	f := *(*func(uintptr, unsafe.Pointer) bool)(unsafe.Pointer(&unlockf))
+	runtimeGopark(f, unsafe.Pointer(wg), 9, 3, traceskip)
+}
+
+func goready(g uintptr, traceskip int) {
+	if r := VerifReady; r != nil {
+		r(g)
+		return
+	}
+	runtimeGoready(g, traceskip)
+}
